@@ -79,6 +79,20 @@ def extract(config="default", repo=REPO, target=None, facts=None, features=None,
             head = f.read(200)
         if th not in head:
             raise RuntimeError(f"{e} is stale (nonce mismatch)")
+    # artifact map (rmeta paths of this very build, for the C18 probe compiler): never glob the target dir
+    r2 = subprocess.run(cmd[:4] + ["--message-format=json"] + cmd[5:], cwd=repo, env=env, capture_output=True, text=True)
+    arts = {}
+    for line in r2.stdout.splitlines():
+        try:
+            m = json.loads(line)
+        except Exception:
+            continue
+        if m.get("reason") == "compiler-artifact":
+            fns = [x for x in m.get("filenames", []) if x.endswith(".rmeta") or x.endswith(".rlib") or x.endswith(".so")]
+            if fns:
+                arts[m["target"]["name"].replace("-", "_")] = fns[0]
+    with open(os.path.join(facts, "artifacts.json"), "w") as f:
+        json.dump({"target": target, "artifacts": arts}, f, indent=1)
     with open(stamp, "w") as f:
         f.write(th)
     return facts
